@@ -72,7 +72,8 @@ BASIS = {"readingLenF9": "openFinding", **{r: "mechanical" for r in ("fixedLenSe
          **{r: "trusted" for r in ("hashNotIterated", "setMembershipOnly", "setIntHash", "idTextEqOnly")}}
 EXE = "drv_c03"
 SKIP = {"bad_primaite_session", "no_nodes_links_agents_network", "eval_only_primaite_session", "multi_agent_session", "data_manipulation_marl"}
-QUICK = ["nmap_ping_scan_red_agent_config", "data_manipulation", "nmap_port_scan_red_agent_config"]
+# quick: the shipped port-scan scenario is played in thorough only; port scans are in the generated scenario's action maps
+QUICK = ["nmap_ping_scan_red_agent_config", "data_manipulation"]
 
 
 # ------------------------------------------------------------------------------------------------ inventory cross-check
@@ -110,6 +111,7 @@ def _n_actions(cfg: Dict) -> int:
     return max(1, len((pa or {}).get("action_space", {}).get("action_map") or {0: 0}))
 
 
+CASE_WALL: List[Tuple[str, float]] = []
 SEED_BIG = 2 ** 32 - 1  # the largest value numpy's global generator accepts
 
 
@@ -127,14 +129,15 @@ def seed_class(s, cfg_seed) -> str:
     return "other"
 
 
-def gen_ops(rng: Rng, n: int, k: int, cfg_seed: int, extra_random: int = 0) -> List[Any]:
-    """episode 0 (configured seed c, actions B) | reset(c) B | reset(0) B | reset(0) B | reset(1) B | reset(BIG) B | reset(1) B |
-    reset(BIG) B | [reset(r) B | reset(r') B | reset(r) B …] | reset(None) C.   Every seed value is played twice with the SAME actions
-    after DIFFERENT histories (different numbers of draws consumed), so that "did not re-seed" is observable; all seeded episodes use the
-    same actions, so that episodes with different seeds can be told apart (non-vacuity)."""
+def gen_ops(rng: Rng, n: int, k: int, cfg_seed: int, extra_random: int = 0, short: bool = False) -> List[Any]:
+    """episode 0 (configured seed c, actions B) | reset(c) B | reset(0) B | reset(c) B | reset(0) B | reset(1) B | reset(BIG) B |
+    reset(1) B | reset(BIG) B | [reset(r) B | reset(r') B | reset(r) B …] | reset(None) C.   Every seed value is played twice THROUGH
+    reset with the SAME actions after DIFFERENT histories (different numbers of draws consumed), so that "did not re-seed" is observable;
+    all seeded episodes use the same actions, so that episodes with different seeds can be told apart (non-vacuity)."""
     b = [rng.below(n) for _ in range(k)]
     c = [rng.below(n) for _ in range(max(2, k // 2))]
-    plan: List[Any] = [cfg_seed, 0, 0, 1, SEED_BIG, 1, SEED_BIG]
+    # `short` (quick tier, secondary cases): only the seed value 0 twice; the full family is played by the primary cases
+    plan: List[Any] = [0, 0] if short else [cfg_seed, 0, cfg_seed, 0, 1, SEED_BIG, 1, SEED_BIG]
     rs = [rng.range(2, 2 ** 31 - 1) for _ in range(extra_random)]
     plan += rs + rs[::-1]
     ops: List[Any] = list(b)
@@ -155,7 +158,7 @@ def reseed_pairs(ops: List[Any], cfg_seed) -> List[Tuple[int, int, Any]]:
     out = []
     first: Dict[Any, int] = {}
     for i, (sd, acts) in enumerate(eps):
-        if sd is None:
+        if sd is None or i == 0:  # episode 0 was CONSTRUCTED, not reset: see `constructed_vs_reset`
             continue
         key = (sd, tuple(acts))
         if key in first:
@@ -293,7 +296,7 @@ def cases(ctx: Ctx, search: bool = False):
     rng = ctx.rng.fork("xproc" + ("-search" if search else ""))
     if not search:
         names = [n for n in QUICK if n in shipped] if not ctx.thorough else [n for n in shipped if n not in SKIP]
-        for name in names:
+        for idx, name in enumerate(names):
             try:
                 cfg = scen.load_cfg(shipped[name])
             except Exception:
@@ -303,9 +306,10 @@ def cases(ctx: Ctx, search: bool = False):
             if cfg["game"].get("seed") in (None, -1):
                 cfg["game"]["seed"] = rng.range(2, 10 ** 6)  # the property speaks of a CONFIGURED seed
             stochastic = name in ("data_manipulation",) or ctx.thorough
-            k = ctx.scale(6, 14) if stochastic else ctx.scale(4, 10)
-            yield name, "shipped-map", cfg, gen_ops(rng.fork(name), _n_actions(cfg), k, cfg["game"]["seed"], ctx.scale(0, 1))
-            if ctx.thorough or name == "data_manipulation":
+            k = ctx.scale(6, 14) if stochastic else ctx.scale(3, 10)
+            yield name, "shipped-map", cfg, gen_ops(rng.fork(name), _n_actions(cfg), k, cfg["game"]["seed"], 0,
+                                                    short=(not ctx.thorough and not stochastic))
+            if (ctx.thorough and idx % 2 == 0) or name == "data_manipulation":  # thorough: a generated action map for every second scenario
                 try:
                     aug = envrig.augmented(cfg, rng.fork(name + "-aug"), ctx.scale(40, 120))
                 except Exception as e:
@@ -313,7 +317,8 @@ def cases(ctx: Ctx, search: bool = False):
                     aug = None
                 if aug is not None:
                     aug = _small_scan(aug)
-                    yield name, "generated-map", aug, gen_ops(rng.fork(name + "-augops"), _n_actions(aug), ctx.scale(8, 18), aug["game"]["seed"], 0)
+                    yield name, "generated-map", aug, gen_ops(rng.fork(name + "-augops"), _n_actions(aug), ctx.scale(8, 18), aug["game"]["seed"], 0,
+                                                              short=not ctx.thorough)
     # the same scenarios with every optional process-wide section left out (played after a history that set them)
     if not search:
         for name in (["data_manipulation"] if not ctx.thorough else ["data_manipulation", "uc7_config", "action_penalty", "shared_rewards",
@@ -332,7 +337,7 @@ def cases(ctx: Ctx, search: bool = False):
             acts = [r.below(_n_actions(cfg)) if r.chance(1, 4) else 0 for _ in range(k)]  # mostly do-nothing: let the scripted traffic through
             yield name, "defaults-after-history", cfg, acts + [["reset", cfg["game"]["seed"]]] + acts + [["reset", None]] + acts[:k // 2]
     # threat-actor agents with stochastic settings (uc7), and a generated scenario with a random agent + nmap + database + web
-    n_tap = ctx.scale(1, 3) if not search else 2
+    n_tap = ctx.scale(1, 2) if not search else 2
     for name in ("uc7_config", "uc7_config_tap003"):
         if name not in shipped:
             continue
@@ -341,8 +346,9 @@ def cases(ctx: Ctx, search: bool = False):
             r = rng.fork(f"{name}-tap{i}")
             cfg = tap_variant(base, r)
             cfg["game"]["seed"] = r.range(2, 10 ** 6)
-            yield name, f"stochastic-tap-{i}", cfg, gen_ops(r, _n_actions(cfg), ctx.scale(12, 24), cfg["game"]["seed"], ctx.scale(0, 1))
-    for i in range(ctx.scale(1, 6) if not search else 2):
+            yield name, f"stochastic-tap-{i}", cfg, gen_ops(r, _n_actions(cfg), ctx.scale(10, 20), cfg["game"]["seed"], ctx.scale(0, 1),
+                                                            short=(not ctx.thorough and name != "uc7_config"))
+    for i in range(ctx.scale(1, 4) if not search else 2):
         r = rng.fork(f"generated-{i}")
         try:
             cfg = generated_variant(r)
@@ -351,13 +357,14 @@ def cases(ctx: Ctx, search: bool = False):
             ctx.notes.append(f"generated scenario {i} not built: {type(e).__name__}: {str(e)[:160]}")
             continue
         cfg["game"]["seed"] = r.range(2, 10 ** 6)
-        yield "generated", f"random-agent+nmap+db+web-{i}", cfg, gen_ops(r, _n_actions(cfg), ctx.scale(8, 16), cfg["game"]["seed"], ctx.scale(0, 1))
+        yield "generated", f"random-agent+nmap+db+web-{i}", cfg, gen_ops(r, _n_actions(cfg), ctx.scale(8, 14), cfg["game"]["seed"], ctx.scale(0, 1),
+                                                                         short=not ctx.thorough)
 
 
 def variants(ctx: Ctx, rng: Rng, cfg: Optional[Dict] = None, n_extra: int = 0) -> Tuple[List[Dict], Dict]:
     """The interpreters of a case: PYTHONHASHSEED values chosen so that the scenario's string vocabularies come out of a set in
     pairwise different orders (xproc.pick_hashseeds), logging fully on / fully off."""
-    n = 3 + (2 if ctx.thorough else 0) + n_extra
+    n = 3 + (1 if ctx.thorough else 0) + n_extra
     cands = [1] + [rng.range(2, 4_000_000_000) for _ in range(ctx.scale(7, 11) + 2 * n_extra)]
     if ctx.thorough:
         cands.insert(1, 0)  # hashing disabled
@@ -402,7 +409,7 @@ def reseed_oracle(name: str, variant: str, cfg: Dict, ops: List[Any], base_v: Di
         if j >= len(eps) or i >= len(eps) or len(eps[i]) != len(eps[j]):
             cnt["reseed:pair-not-comparable"] = cnt.get("reseed:pair-not-comparable", 0) + 1
             continue
-        cls = seed_class(sd, cfg_seed) if i > 0 else "configured"
+        cls = "configured" if sd == cfg_seed else seed_class(sd, cfg_seed)
         cnt["reseed:pairs:" + cls] = cnt.get("reseed:pairs:" + cls, 0) + 1
         cnt["reseed:lines-compared"] = cnt.get("reseed:lines-compared", 0) + len(eps[i])
         a, b = list(eps[i]), list(eps[j])
@@ -423,11 +430,19 @@ def reseed_oracle(name: str, variant: str, cfg: Dict, ops: List[Any], base_v: Di
         if d is not None:
             sig = {"kind": "reseed-diff", "seed_class": cls, **{k: desc[k] for k in ("part", "action", "field") if k in desc}}
             viol.append({"sig": sig, "what": f"{name}/{variant}: episode {j} was started with reset(seed={sd}) and played the same actions as episode {i} "
-                                            f"(started with the same seed{' by construction' if i == 0 else ''}), but line {d} of the episode differs: {desc}; "
+                                            f"(started with the same seed), but line {d} of the episode differs: {desc}; "
                                             f"{_excerpt(a[d], b[d])}",
                          "replay": {"scenario": name, "variant": variant, "cfg_yaml": _yaml(cfg), "ops": ops, "variants": [base_v], "reseed": True,
                                     "episodes": [i, j], "seed": sd, "a": a[d][:3000], "b": b[d][:3000]}})
             break
+    # observation only (NOT part of the property: `__init__` does not run setup_for_episode / update_agents, so the first steps of a
+    # merely constructed environment may differ from those after reset - DESIGN 9.6.C04.2): episode 0 vs the episode after reset(configured)
+    if len(eps) > 1 and len(eps[0]) == len(eps[1]):
+        same = [l for l in eps[0][1:] if l.startswith('{"op"')] == [l for l in eps[1][1:] if l.startswith('{"op"')]
+        k0 = "reseed:constructed-episode-equals-reset(configured)-episode" if same else "reseed:constructed-episode-differs-from-reset(configured)-episode"
+        cnt[k0] = cnt.get(k0, 0) + 1
+        if _head_fields(eps[0][0]).get("rng") == _head_fields(eps[1][0]).get("rng"):
+            cnt["reseed:generators-after-construction-equal-those-after-reset(configured)"] = 1
     # non-vacuity: episodes started with DIFFERENT seeds (same actions) that can be told apart
     by_seed: Dict[Any, List[str]] = {}
     for i, j, sd in pairs:
@@ -442,9 +457,12 @@ def reseed_oracle(name: str, variant: str, cfg: Dict, ops: List[Any], base_v: Di
 def check_case(name: str, variant: str, cfg: Dict, ops: List[Any], vs: List[Dict], warm: Optional[List[Dict]] = None
                ) -> Tuple[List[dict], Dict[str, int], List[str]]:
     """Run the workers; returns (violations, counters, base lines)."""
+    import time as _time
+    t_case = _time.time()
     warm = warm or []
     vs = [dict(v, warm=[i for i in (v.get("warm") or []) if i < len(warm)]) for v in vs]
     res = xproc.run_workers({"cfg": cfg, "ops": ops, "warm": warm}, vs, REPO, VERIF)
+    CASE_WALL.append((f"{name}/{variant}", round(_time.time() - t_case, 1)))
     viol: List[dict] = []
     cnt = {"workers": len(res), "lines": 0, "raised": 0}
     base_v, base, base_err = res[0]
@@ -471,6 +489,7 @@ def check_case(name: str, variant: str, cfg: Dict, ops: List[Any], vs: List[Dict
                                 "a": a[:4000], "b": b[:4000], "stderr": err[-500:]}})
         break
     cnt["workers-with-history"] = sum(1 for v, _, _ in res if v.get("warm"))
+    cnt["warmup-failed"] = sum(err.count("WARMUP-FAILED") for _, _, err in res)
     rv, rc = reseed_oracle(name, variant, cfg, ops, base_v, base)
     viol += rv
     cnt.update(rc)
@@ -788,6 +807,7 @@ def run_cases(ctx: Ctx, all_cases, tag: str = "xproc") -> int:
             ctx.count(f"{tag}:cases")
             ctx.count(f"{tag}:workers", cnt["workers"])
             ctx.count(f"{tag}:workers-with-process-history", cnt.get("workers-with-history", 0))
+            ctx.count(f"{tag}:warm-ups-that-raised", cnt.get("warmup-failed", 0))
             ctx.count(f"{tag}:case-ended-by-exception", cnt["raised"])
             for k, v in cnt.items():
                 if k.startswith("reseed:"):
@@ -868,8 +888,6 @@ def run(ctx: Ctx):
     mark("inventory")
     site_rig(ctx)
     mark("site-rig")
-    probe_rig(ctx)
-    mark("probe-rig")
     all_cases = []
     shipped = scen.shipped()
     for f in sorted((VERIF / "corpus" / "C03").glob("xproc_*.json")):
@@ -890,13 +908,18 @@ def run(ctx: Ctx):
             hs_info[k] += info.get(k, 0)
         all_cases.append((name, variant, cfg, ops, vs, warm_specs(cfg, wr.fork(name + variant))))
     ctx.cov["hashseed_selection"] = hs_info
+    # corpus witnesses first, then the generated cases longest first (uc7 takes several times longer than the small scenarios)
+    n_corpus = sum(1 for c in all_cases if c[0].startswith("corpus:"))
+    all_cases = all_cases[:n_corpus] + sorted(all_cases[n_corpus:], key=lambda c: -len(c[3]) * len(_yaml(c[2])))
     mark("case-generation+hashseed-selection")
-    with cf.ThreadPoolExecutor(1) as ex0:
-        f9_future = ex0.submit(f9_compute)  # the known finding is replayed alongside
+    with cf.ThreadPoolExecutor(2) as ex0:
+        f9_future = ex0.submit(f9_compute)        # the known finding is replayed alongside
+        probe_future = ex0.submit(probe_rig, ctx)  # and so are the stand-alone site probes (three interpreters)
         agree = run_cases(ctx, all_cases)
         mark("cross-process-cases")
+        probe_future.result()
         f9_results = f9_future.result()
-        mark("f9-replay-tail")
+        mark("probe+f9-tail")
     ctx.oblige("rig:R-env identical canonical trajectories across processes", "correspondence",
                not any(v["sig"].get("kind") in ("cross-process-diff", "worker-produced-nothing") for v in ctx.violations),
                f"{len(all_cases) - agree} of {len(all_cases)} cases have a violation")
@@ -906,6 +929,7 @@ def run(ctx: Ctx):
                and all(ctx.hist.get("reseed:pairs:" + c, 0) > 0 for c in ("configured", "zero", "one", "large")),
                f"{n_pairs} same-seed episode pairs compared")
     ctx.cov["reseed_oracle"] = {k[7:]: v for k, v in ctx.hist.items() if k.startswith("reseed:")}
+    ctx.cov["case_wall_s"] = dict(CASE_WALL)
     # -- search: a broken inventory / seeding obligation without a concrete input so far -> drive the code of the new sites harder
     unlisted = [v for v in ctx.violations if v["sig"].get("kind") != "frame-size-depends-on-unseeded-text-length"]
     if (not proved or new_sites) and not unlisted:
